@@ -22,7 +22,8 @@ EXPLANATION = (
     " R5 also decides, for the sync and the async flush, that the len() feeding `record_counter +=` is taken from the very collection (normalised place identity) that was handed to write_container."
     " (R7) the reader recomputes TLEN of in-slice mates from min(start) and max(END) of both segments: both alignment_end() results feed one max()."
     " (R9) written-iff-present for the quality score array: every use of the QUALITY_SCORES_ARE_STORED_AS_ARRAY constant in the record converter lies behind a switch on quality_scores().is_empty() (violated today: known finding F31, `QUAL *` records written by noodles do not read back)."
-    " (R10) declared raw sizes: the uncompressed_size a writer Block is built with derives from a len() that is not downstream of a codec encode call (genuine defect F35, repaired: the fqzcomp arm declared the compressed length).")
+    " (R10) declared raw sizes: the uncompressed_size a writer Block is built with derives from a len() that is not downstream of a codec encode call (genuine defect F35, repaired: the fqzcomp arm declared the compressed length)."
+    " (R11) sentinel vs terminator: the marker written for an unnamed record is free of the terminator of the NUL-terminated name series and is the marker the reader maps back to None (genuine defect F38, repaired). (R12) the predicate that raises the file version to 3.1 names every CRAM 3.1 codec and is asked about every encoder slot of the map (genuine defect F39, repaired).")
 ASSUMPTIONS = ["flate2 Crc/CrcReader/CrcWriter compute CRC32 of exactly the bytes passed through", "md5 crate",
                "function-stem pairing (read_x <-> write_x) reflects the symmetric structure of the two record codecs (floor-checked)"]
 NOT_DECIDED = ["record equality: feature/CIGAR/base reconstruction, mate resolution, every encoder option x codec",
@@ -241,6 +242,13 @@ def run(ctx):
     ctx.rule("C07.R10", "declared raw sizes: a writer Block's uncompressed_size derives from the length of the codec's input, never of its output")
     _raw_size_rule(ctx)
 
+    ctx.rule("C07.R11", "A7/A8 sentinel vs terminator: the marker written for an unnamed record is free of the name series' terminator and is the "
+                        "marker the reader maps back to None")
+    _name_marker_rule(ctx)
+
+    ctx.rule("C07.R12", "A7 exhaustiveness: the version-3.1 predicate names every CRAM 3.1 codec and is asked about every encoder slot of the map")
+    _version_rule(ctx)
+
     ctx.rule("C07.R7", "A7 span of a template: the reader recomputes TLEN of in-slice mates from min(start of both segments) and max(END of both "
                        "segments) — each alignment_end() result feeds the maximum")
     ft = ctx.anchor("C07.R7", K + "io::reader::container::slice::calculate_template_length_chunk")
@@ -329,6 +337,83 @@ def _raw_size_rule(ctx):
                 else:
                     ctx.violation("C07.R10", "C07.R10/raw-size-not-a-length/" + k, "%s: uncompressed_size of a Block does not derive from a len()" % k, f.loc(bi))
     ctx.floor("C07.R10", "writer Block constructions", n, 2)
+
+
+def _name_marker_rule(ctx):
+    """The read-name series is NUL-terminated by its encoding (ByteArrayStop, stop byte 0): the marker the writer stores for an
+    unnamed record must not contain the terminator, and the reader must map exactly that marker back to 'no name' (defect F38:
+    the marker "*\\0" was written as "*\\0\\0", read as "*" and "", and shifted every later name of the slice)."""
+    fb = ctx.fb
+    wk = next((k for k in fb.consts if k.startswith(K + "io::writer::container::slice::records::") and k.endswith("write_name::MISSING")), None)
+    rfn = next((k for k in fb.matches if k.startswith(K + "io::reader::container::slice::records::") and "read_name" in k), None)
+    if wk is None or rfn is None:
+        ctx.violation("C07.R11", "C07.R11/ANCHOR-MISSING/name-marker", "writer marker const (%s) or reader match (%s) not found" % (wk, rfn))
+        return
+    raw = fb.consts[wk].get("raw", "")
+    wbytes = bytes.fromhex(raw) if raw else b""
+    stop = 0
+    arms = [a["p"] for m in fb.matches[rfn] for a in m["arms"] if "None" in a["v"]]
+    accepted = set()
+    for p_ in arms:
+        for m in re.finditer(r'"raw":"([0-9a-f]*)"', p_):
+            accepted.add(bytes.fromhex(m.group(1)))
+        for m in re.finditer(r'b"((?:\\x[0-9a-f]{2})+)"', p_):
+            accepted.add(bytes(int(x, 16) for x in re.findall(r"\\x([0-9a-f]{2})", m.group(1))))
+    if not wbytes or bytes([stop]) in wbytes:
+        ctx.violation("C07.R11", "C07.R11/marker-contains-terminator/" + wk,
+                      "the writer's marker for an unnamed record (%r) contains the terminator of the NUL-terminated name series: it is stored "
+                      "as two strings and every later read name of the slice moves by one record" % wbytes, "%s:%s" % (fb.consts[wk]["file"], fb.consts[wk]["line"]))
+    elif wbytes not in accepted:
+        ctx.violation("C07.R11", "C07.R11/marker-not-recognised/" + rfn,
+                      "the reader maps %s to 'no name' but the writer stores %r for an unnamed record" % (sorted(accepted), wbytes))
+    else:
+        ctx.ok("C07.R11", "unnamed-record marker %r" % wbytes, "free of the series terminator and mapped back to None by the reader (accepted: %s)" % sorted(accepted))
+
+
+def _version_rule(ctx):
+    """CRAM version it can emit: the predicate that raises the file version to 3.1 names every Encoder variant whose compression
+    method is a CRAM 3.1 method (codes 5-8: rANS Nx16, arithmetic coder, fqzcomp, name tokenizer), and is asked about EVERY place of
+    the encoder map that can hold an encoder (defect F39: fqzcomp and the default encoder were left out)."""
+    fb = ctx.fb
+    pk = K + "io::writer::builder::uses_cram_3_1_codecs"
+    f = ctx.anchor("C07.R12", pk)
+    if f is None:
+        return
+    ms = fb.matches.get(pk + "::is_cram_3_1_codec") or [m for k, v in fb.matches.items() if k.startswith(pk) for m in v]
+    named = set()
+    for m in ms:
+        for a in m["arms"]:
+            if a["v"] == "true":
+                named |= set(re.findall(r"codecs::Encoder::(\w+)", a["p"]))
+    enc = fb.adts.get(K + "codecs::Encoder")
+    if not named or enc is None:
+        ctx.violation("C07.R12", "C07.R12/ANCHOR-MISSING/%s/pattern" % pk, "the 3.1 codec pattern or the Encoder type was not found", f.loc())
+        return
+    # CRAM 3.1 methods by name of the compression method the encoder is mapped to in Block::encode
+    V31 = {"RansNx16", "AdaptiveArithmeticCoding", "Fqzcomp", "NameTokenizer"}
+    variants = {v["name"] for v in enc["variants"]}
+    need = V31 & variants
+    if V31 - variants:
+        ctx.violation("C07.R12", "C07.R12/ANCHOR-MISSING/Encoder-variants", "Encoder no longer has the variants %s" % sorted(V31 - variants), f.loc())
+    missing = need - named
+    extra = named - V31
+    if missing or extra:
+        ctx.violation("C07.R12", "C07.R12/3.1-codec-set/" + pk,
+                      "the predicate that selects CRAM version 3.1 names %s; CRAM 3.1 methods missing: %s, not 3.1: %s — a file using such a codec "
+                      "declares version 3.0" % (sorted(named), sorted(missing), sorted(extra)), f.loc())
+    else:
+        ctx.ok("C07.R12", pk + " :: 3.1 codec set", "names exactly %s" % sorted(named), f.loc())
+    mk_ = K + "container::block_content_encoder_map::BlockContentEncoderMap"
+    adt = fb.adts.get(mk_)
+    holders = [fl["name"] for fl in (adt or {"variants": [{"fields": []}]})["variants"][0]["fields"] if "codecs::Encoder" in fl["ty"]]
+    asked = {(c.get("f") or "").split("::")[-1] for g in fb.family(pk) for _b, c in g.calls() if (c.get("f") or "").startswith(mk_ + "::")}
+    ctx.floor("C07.R12", "encoder-holding fields of BlockContentEncoderMap", len(holders), 4)
+    left = [h for h in holders if h not in asked]
+    if left:
+        ctx.violation("C07.R12", "C07.R12/encoder-slot-not-asked/" + pk,
+                      "uses_cram_3_1_codecs does not look at %s of the encoder map: a 3.1 codec set there leaves the file at version 3.0" % left, f.loc())
+    else:
+        ctx.ok("C07.R12", pk + " :: asks every encoder slot", ", ".join(sorted(holders)), f.loc())
 
 
 def _qs_flag_rule(ctx):
